@@ -463,6 +463,11 @@ def _replay_and_or(cls_name, is_or):
         if any("precision" in str(m.message) for m in w):
             continue
         pts = c.coordinates[:-1] if not is_or else c.coordinates[:-3]
+        if is_or:
+            far = [p.tolist() for p in np.asarray(pts, dtype=float) if p[0] >= 1.1 * x.max() or p[1] >= 1.1 * y.max()]
+            if far:
+                worst = (trial, far[:3], "kept although beyond 1.1 x the sample maximum in one variable", (1.1 * float(x.max()), 1.1 * float(y.max())), alpha)
+                break
         for p in np.asarray(pts, dtype=float):
             if is_or:
                 pe = np.mean((x > p[0]) | (y > p[1]))
@@ -473,7 +478,7 @@ def _replay_and_or(cls_name, is_or):
                 break
         if worst:
             break
-    return {"confirmed": worst is not None, "detail": f"point with exceedance outside the tolerance and no warning: {worst}" if worst else "all searched points within tolerance on 12 samples with ties / zeros"}
+    return {"confirmed": worst is not None, "detail": f"point with exceedance outside the tolerance and no warning / point that had to be dropped: {worst}" if worst else "all searched points within tolerance on 12 samples with ties / zeros"}
 
 
 AndCompute.replay = lambda self, case, ob: _replay_and_or("AndContour", False)
